@@ -44,7 +44,7 @@ def pyth(rng, k, big=6):
 EXPS = [-19, -19, -12, -3, -1, 0, 0, 0, 1, 2, 7, 30, 60, -8, 3, 5]
 BIG_EXPS = [100, 300, 480, 490]
 TVALS = [F(0), F(1), F(1), F(2), F(1, 2), F(5), F(3, 4), F(7, 8), F(10), F(800000), F(3) * 2 ** 40,
-         F(1, 2 ** 19), F(2) ** 490, F(3, 2 ** 19), F(-2), F(-1, 4)]
+         F(1, 2 ** 19), F(2) ** 490, F(3, 2 ** 19), F(12), F(1, 4)]
 
 
 def gen_cell(rng, k, mode):
@@ -121,14 +121,26 @@ def gen_spec(rng, n, allow_bad=False):
     if r < 0.82:
         cs = [F(rng.randint(-8, 8), 4) for _ in n]
         c0 = F(rng.randint(-16, 48), 4)
-        return dict(kind="affine", c0=S(c0), cs=[S(c) for c in cs])
+        return dict(kind="affine", c0=S(c0), cs=[S(c) for c in cs], shift=True)
     ax = rng.randrange(len(n))
     return dict(kind="step", ax=ax, x0=None, lo=S(rng.choice([F(0), F(0), F(1), F(3, 2)])),
                 hi=S(rng.choice([F(0), F(2), F(5), F(1, 2 ** 19)])))
 
 
 def fix_step(spec, p1, p2, n, rng):
-    """threshold of a step spec: a cell face or a cell centre of the chosen axis (dyadic)"""
+    """threshold of a step spec: a cell face or a cell centre of the chosen axis (dyadic);
+    affine specs are shifted so that the smallest target is exactly zero or positive (negative
+    targets are outside the property's quantifier)"""
+    if spec["kind"] == "affine" and spec.pop("shift", False):
+        lo = [min(F(a), F(b)) for a, b in zip(p1, p2)]
+        cell = [abs(F(b) - F(a)) / k for a, b, k in zip(p1, p2, n)]
+        vals = []
+        for idx in np.ndindex(*n):
+            p = [l + (i + F(1, 2)) * c for l, i, c in zip(lo, idx, cell)]
+            vals.append(F(spec["c0"]) + sum(F(c) * x for c, x in zip(spec["cs"], p)))
+        if min(vals) < 0:
+            spec["c0"] = S(F(spec["c0"]) - min(vals))
+        return spec
     if spec["kind"] != "step" or spec["x0"] is not None:
         return spec
     ax = spec["ax"]
@@ -150,7 +162,7 @@ def gen_hist(rng, tier, mode="std", nvdim=None, bad=False):
     k = nvdim or rng.choice([1, 2, 3, 3, 3, 4])
     vals = flat(gen_cells(rng, ncell, k, mode))
     norm0 = None
-    if rng.random() < (0.45 if mode == "std" else 0.15):
+    if mode == "std" and rng.random() < 0.45:
         norm0 = fix_step(gen_spec(rng, n), p1, p2, n, rng)
     vr = rng.random()
     if vr < 0.4:
@@ -165,6 +177,8 @@ def gen_hist(rng, tier, mode="std", nvdim=None, bad=False):
         nops = rng.choice([0, 0, 1])
     for j in range(nops):
         r = rng.random()
+        if mode in ("sub", "thr"):
+            r = max(r, 0.56)
         if r < 0.55:
             ops.append(dict(op="setnorm", spec=fix_step(gen_spec(rng, n, allow_bad=bad and j == nops - 1), p1, p2, n, rng)))
         elif r < 0.85:
@@ -212,8 +226,7 @@ def gen_rel(rng, tier):
         cells.append(v)
         tr = rng.random()
         ts.append(0.0 if tr < 0.12 else (rnd_float(rng, -6, 149) if tr < 0.9 else 1.0))
-        if ts[-1] < 0 and rng.random() < 0.8:
-            ts[-1] = -ts[-1]
+        ts[-1] = abs(ts[-1])
     return dict(kind="rel", nvdim=k, vals=[S(x) for c in cells for x in c], ts=[S(t) for t in ts],
                 const=(rng.random() < 0.25))
 
@@ -632,7 +645,7 @@ def run_case(c):
 
 
 def stats(records):
-    out = dict(hist=0, rel=0, rejected_histories=0, setnorm_ops=0, update_ops=0, zero_cells=0,
+    out = dict(hist=0, rel=0, rejected_histories=0, setnorm_ops=0, update_ops=0,
                subthreshold_or_threshold=0, constructor_norm=0, valid_norm=0)
     for r in records:
         c = r["case"]
